@@ -344,4 +344,474 @@ theorem SubInv.merge {hd : Nat → Head} {alive : Nat → Bool} {sub : Sub} (inv
       simp only [Sub.merge, hak]
       exact ⟨hc, hs, hlok, hlf (by simp), harg'⟩
 
+
+/-! ### `retract` -/
+
+theorem hd_remove (idx : Index) (id i : Nat) : (remove idx id).hd i = idx.hd i := by
+  unfold remove; split <;> rfl
+
+theorem next_remove (idx : Index) (id : Nat) : (remove idx id).next = idx.next := by
+  unfold remove; split <;> rfl
+
+theorem Inv.remove {idx : Index} (inv : Inv idx) (id : Nat) : Inv (remove idx id) := by
+  unfold Scryer.Index.remove
+  split
+  · rename_i hc
+    have hmem : id ∈ idx.order := by
+      have : id ∈ idx.live := by simpa using hc
+      exact (List.mem_filter.1 this).1
+    refine ⟨inv.nodup, inv.order_lt, inv.store_lt, ?_, ?_⟩
+    · intro i hi
+      rcases List.mem_cons.1 hi with h | h
+      · subst h; exact inv.order_lt _ hmem
+      · exact inv.dead_lt i h
+    · intro sub hsub
+      refine (inv.subs sub hsub).congr (fun _ _ => rfl) (fun i _ ha => ?_)
+      simp only [Index.alive, List.contains_cons, Bool.not_or, Bool.and_eq_true] at ha
+      exact ha.2
+  · exact inv
+
+theorem live_remove {idx : Index} (_inv : Inv idx) (id : Nat) :
+    (remove idx id).live = idx.live.filter (· ≠ id) := by
+  unfold remove
+  split
+  · simp only [Index.live, Index.order, List.filter_filter]
+    apply List.filter_congr
+    intro i _
+    simp only [Index.alive, List.contains_cons, Bool.not_or]
+    by_cases h : i = id <;> simp [h]
+  · rename_i hc
+    symm
+    rw [List.filter_eq_self]
+    intro i hi
+    have : i ≠ id := fun e => hc (by simpa [e] using hi)
+    simpa using this
+
+
+/-! ### a clause compiled on its own -/
+
+/-- the indexing code of an empty subsequence. -/
+def emptySub (arg : Nat) : Sub := ⟨arg, [], .leaf .fail, .fail, .leaf .fail⟩
+
+theorem emptySub_inv (hd : Nat → Head) (alive : Nat → Bool) (arg : Nat) :
+    SubInv hd alive (emptySub arg) := by
+  refine ⟨⟨fun k => ?_, fun i hi => ?_, fun p hp hpf => ?_⟩, ⟨fun k => ?_, fun i hi => ?_, fun p hp hpf => ?_⟩,
+    ?_, fun i hi => ?_, fun i hi => ?_⟩
+  all_goals first
+    | (simp [emptySub] at hi; done)
+    | (simp [emptySub] at hp; exact absurd hp.symm hpf)
+    | simp [emptySub, PtrOK, Slot.look, Ptr.ids]
+
+theorem standalone_var (id : Nat) (h : Head) (hv : argAt h ((firstInst h).getD 0) = .var) :
+    standalone id h = .plain [id] := by
+  simp [standalone, compileSeg, hv, indexTerm, Offsets.empty, Offsets.noIndices]
+
+theorem standalone_nonvar (id : Nat) (h : Head) (hv : argAt h ((firstInst h).getD 0) ≠ .var) :
+    standalone id h = .indexed ((emptySub ((firstInst h).getD 0)).merge .append none none
+      (argAt h ((firstInst h).getD 0)) id) := by
+  generalize hfa : argAt h ((firstInst h).getD 0) = fa at hv
+  cases fa with
+  | var => exact absurd rfl hv
+  | list =>
+    simp [standalone, compileSeg, hfa, indexTerm, Offsets.empty, Offsets.noIndices, Sub.merge,
+      emptySub, Mode.extend, switchOn, secondLevel, switchOnList, indexList]
+  | struct n a =>
+    simp [standalone, compileSeg, hfa, indexTerm, Offsets.empty, Offsets.noIndices, Sub.merge,
+      emptySub, Mode.extend, switchOn, secondLevel, switchOnList, indexKey, ginsert]
+  | const l =>
+    cases hak : l.altKey with
+    | none =>
+      simp [standalone, compileSeg, hfa, indexTerm, Offsets.empty, Offsets.noIndices, Sub.merge,
+        emptySub, Mode.extend, switchOn, secondLevel, switchOnList, indexKey, ginsert, hak]
+    | some k2 =>
+      have hne : ¬ l.key = k2 := fun e => altKey_ne_key l k2 hak e.symm
+      simp [standalone, compileSeg, hfa, indexTerm, Offsets.empty, Offsets.noIndices, Sub.merge,
+        emptySub, Mode.extend, switchOn, secondLevel, switchOnList, indexKey, ginsert, hak,
+        indexOverlap, tableIndex, tlookup, tinsert, hne]
+
+
+theorem firstInstFrom_none (h : Head) (i : Nat) (hh : firstInstFrom h i = none) (p : Nat) :
+    h.getD p .var = .var := by
+  induction h generalizing i p with
+  | nil => simp
+  | cons x r ih =>
+    simp only [firstInstFrom] at hh
+    split at hh
+    · rename_i hx
+      cases p with
+      | zero => simpa using hx
+      | succ n => simpa using ih (i + 1) hh n
+    · simp at hh
+
+theorem firstInst_of_nonvar (h : Head) (hv : argAt h ((firstInst h).getD 0) ≠ .var) :
+    firstInst h = some ((firstInst h).getD 0) := by
+  cases hf : firstInst h with
+  | some p => rfl
+  | none => exact absurd (firstInstFrom_none h 0 hf _) hv
+
+theorem merge_chain (m : Mode) (fc : Option CKey) (fs : Option (String × Nat)) (sub : Sub)
+    (fa : FirstArg) (id : Nat) : (sub.merge m fc fs fa id).chain = m.extend sub.chain id := by
+  cases fa with
+  | const l => simp only [Sub.merge]; split <;> rfl
+  | _ => rfl
+
+theorem merge_arg (m : Mode) (fc : Option CKey) (fs : Option (String × Nat)) (sub : Sub)
+    (fa : FirstArg) (id : Nat) : (sub.merge m fc fs fa id).arg = sub.arg := by
+  cases fa with
+  | const l => simp only [Sub.merge]; split <;> rfl
+  | _ => rfl
+
+theorem standalone_chain (id : Nat) (h : Head) : (standalone id h).chain = [id] := by
+  by_cases hv : argAt h ((firstInst h).getD 0) = .var
+  · rw [standalone_var id h hv]; rfl
+  · rw [standalone_nonvar id h hv]; simp [Seg.chain, merge_chain, emptySub, Mode.extend]
+
+theorem standalone_inv {hd : Nat → Head} {alive : Nat → Bool} (id : Nat) (h : Head)
+    (hh : hd id = h) (sub : Sub) (hs : standalone id h = .indexed sub) : SubInv hd alive sub := by
+  by_cases hv : argAt h ((firstInst h).getD 0) = .var
+  · rw [standalone_var id h hv] at hs; cases hs
+  · rw [standalone_nonvar id h hv] at hs
+    injection hs with hs
+    subst hs
+    apply SubInv.merge (emptySub_inv hd alive _)
+    · rw [hh]; rfl
+    · rw [hh]; exact firstInst_of_nonvar h hv
+    · rintro ⟨i, hi, _⟩; simp [emptySub] at hi
+    · rintro ⟨i, hi, _⟩; simp [emptySub] at hi
+
+
+/-! ### adding a clause: generic part -/
+
+/-- the predicate after clause `idx.next` (head `h`) has been stored, with new code `segs`. -/
+def Index.add (idx : Index) (h : Head) (segs : List Seg) : Index :=
+  { segs := segs, store := (idx.next, h) :: idx.store, dead := idx.dead, next := idx.next + 1 }
+
+/-- the heads after clause `idx.next` with head `h` has been stored. -/
+def Index.hdAdd (idx : Index) (h : Head) : Nat → Head :=
+  fun i => if i = idx.next then h else idx.hd i
+
+theorem hd_add (idx : Index) (h : Head) (segs : List Seg) : (idx.add h segs).hd = idx.hdAdd h := by
+  funext i
+  simp only [Index.hd, Index.add, Index.hdAdd, headOf]
+  by_cases e : i = idx.next
+  · simp [e]
+  · have : ¬ idx.next = i := fun e' => e e'.symm
+    simp [e, this]
+
+theorem hdAdd_next (idx : Index) (h : Head) : idx.hdAdd h idx.next = h := by simp [Index.hdAdd]
+
+theorem mem_order {idx : Index} {seg : Seg} {i : Nat} (hs : seg ∈ idx.segs) (hi : i ∈ seg.chain) :
+    i ∈ idx.order := List.mem_flatMap.2 ⟨seg, hs, hi⟩
+
+theorem Inv.next_not_mem {idx : Index} (inv : Inv idx) : idx.next ∉ idx.order :=
+  fun h => Nat.lt_irrefl _ (inv.order_lt _ h)
+
+theorem Inv.alive_next {idx : Index} (inv : Inv idx) : idx.alive idx.next = true := by
+  simp only [Index.alive, Bool.not_eq_true', List.contains_eq_mem, decide_eq_false_iff_not]
+  exact fun h => Nat.lt_irrefl _ (inv.dead_lt _ h)
+
+theorem Inv.sub_hdAdd {idx : Index} (inv : Inv idx) (h : Head) (sub : Sub)
+    (hs : Seg.indexed sub ∈ idx.segs) : SubInv (idx.hdAdd h) idx.alive sub := by
+  refine (inv.subs sub hs).congr (fun i hi => ?_) (fun _ _ ha => ha)
+  have : i ≠ idx.next := fun e => inv.next_not_mem (e ▸ mem_order hs hi)
+  simp [Index.hdAdd, this]
+
+theorem Inv.add {idx : Index} (inv : Inv idx) (h : Head) (segs : List Seg)
+    (nd : (segs.flatMap Seg.chain).Nodup)
+    (hmem : ∀ i, i ∈ segs.flatMap Seg.chain → i ∈ idx.order ∨ i = idx.next)
+    (hsub : ∀ sub, Seg.indexed sub ∈ segs →
+      Seg.indexed sub ∈ idx.segs ∨ SubInv (idx.hdAdd h) idx.alive sub) :
+    Inv (idx.add h segs) := by
+  refine ⟨nd, fun i hi => ?_, fun p hp => ?_, fun i hi => ?_, fun sub hs => ?_⟩
+  · show i < idx.next + 1
+    rcases hmem i hi with h' | h'
+    · exact Nat.lt_succ_of_lt (inv.order_lt i h')
+    · omega
+  · show p.1 < idx.next + 1
+    rcases List.mem_cons.1 hp with h' | h'
+    · subst h'; exact Nat.lt_succ_self _
+    · exact Nat.lt_succ_of_lt (inv.store_lt p h')
+  · exact Nat.lt_succ_of_lt (inv.dead_lt i hi)
+  · rw [hd_add]
+    show SubInv (idx.hdAdd h) idx.alive sub
+    rcases hsub sub hs with h' | h'
+    · exact inv.sub_hdAdd h sub h'
+    · exact h'
+
+theorem live_add (idx : Index) (h : Head) (segs : List Seg) :
+    (idx.add h segs).live = (segs.flatMap Seg.chain).filter idx.alive := rfl
+
+theorem next_add (idx : Index) (h : Head) (segs : List Seg) :
+    (idx.add h segs).next = idx.next + 1 := rfl
+
+/-! ### `modifySegOf` -/
+
+theorem modifySegOf_some (t : Nat) (f : Seg → Option Seg) (segs segs' : List Seg)
+    (hm : modifySegOf t f segs = some segs') :
+    ∃ pre s post s', segs = pre ++ s :: post ∧ (∀ x, x ∈ pre → t ∉ x.chain) ∧ t ∈ s.chain ∧
+      f s = some s' ∧ segs' = pre ++ s' :: post := by
+  induction segs generalizing segs' with
+  | nil => simp [modifySegOf] at hm
+  | cons s r ih =>
+    simp only [modifySegOf] at hm
+    split at hm
+    · rename_i hc
+      cases hf : f s with
+      | none => simp [hf] at hm
+      | some s' =>
+        simp [hf] at hm
+        exact ⟨[], s, r, s', rfl, by simp, by simpa using hc, hf, by simp [hm]⟩
+    · rename_i hc
+      cases hr : modifySegOf t f r with
+      | none => simp [hr] at hm
+      | some r' =>
+        simp [hr] at hm
+        obtain ⟨pre, s0, post, s', e, hpre, ht, hf, e'⟩ := ih r' hr
+        refine ⟨s :: pre, s0, post, s', by simp [e], ?_, ht, hf, by simp [← hm, e']⟩
+        intro x hx
+        rcases List.mem_cons.1 hx with h' | h'
+        · subst h'; simpa using hc
+        · exact hpre x h'
+
+theorem segOf_split (t : Nat) (pre : List Seg) (s : Seg) (post : List Seg)
+    (hpre : ∀ x, x ∈ pre → t ∉ x.chain) (ht : t ∈ s.chain) :
+    segOf t (pre ++ s :: post) = some s := by
+  induction pre with
+  | nil => simp [segOf, ht]
+  | cons x r ih =>
+    have : t ∉ x.chain := hpre x (by simp)
+    simp only [List.cons_append, segOf, List.contains_eq_mem, this, decide_false]
+    exact ih (fun y hy => hpre y (by simp [hy]))
+
+
+/-! ### `search_skeleton_for_first_key_type` -/
+
+theorem searchLit_app (store : List (Nat × Head)) (l1 l2 : List Nat)
+    (hex : ∃ i, i ∈ l1 ∧ ∃ p l, (headOf store i).bind optKey = some (p, .const l)) :
+    ∃ i, i ∈ l1 ∧ ∃ p l, (headOf store i).bind optKey = some (p, .const l) ∧
+      searchLit store (l1 ++ l2) = some l.key := by
+  induction l1 with
+  | nil => simp at hex
+  | cons x r ih =>
+    simp only [List.cons_append, searchLit]
+    split
+    · rename_i p l e; exact ⟨x, by simp, p, l, e, rfl⟩
+    · rename_i hno
+      obtain ⟨i, hi, p, l, e⟩ := hex
+      rcases List.mem_cons.1 hi with h | h
+      · subst h; exact absurd e (hno p l)
+      · obtain ⟨i', hi', r⟩ := ih ⟨i, h, p, l, e⟩; exact ⟨i', by simp [hi'], r⟩
+
+theorem searchStruct_app (store : List (Nat × Head)) (l1 l2 : List Nat)
+    (hex : ∃ i, i ∈ l1 ∧ ∃ p n a, (headOf store i).bind optKey = some (p, .struct n a)) :
+    ∃ i, i ∈ l1 ∧ ∃ p n a, (headOf store i).bind optKey = some (p, .struct n a) ∧
+      searchStruct store (l1 ++ l2) = some (n, a) := by
+  induction l1 with
+  | nil => simp at hex
+  | cons x r ih =>
+    simp only [List.cons_append, searchStruct]
+    split
+    · rename_i p n a e; exact ⟨x, by simp, p, n, a, e, rfl⟩
+    · rename_i hno
+      obtain ⟨i, hi, p, n, a, e⟩ := hex
+      rcases List.mem_cons.1 hi with h | h
+      · subst h; exact absurd e (hno p n a)
+      · obtain ⟨i', hi', r⟩ := ih ⟨i, h, p, n, a, e⟩; exact ⟨i', by simp [hi'], r⟩
+
+theorem bind_optKey {idx : Index} {alive : Nat → Bool} {sub : Sub} (inv : SubInv idx.hd alive sub)
+    (i : Nat) (hi : i ∈ sub.chain) :
+    (headOf idx.store i).bind optKey = some (sub.arg, argAt (idx.hd i) sub.arg) := by
+  have := inv.arg i hi
+  unfold Index.hd at *
+  cases hh : headOf idx.store i with
+  | none => simp [hh, firstInst, firstInstFrom] at this
+  | some h' =>
+    simp only [hh, Option.getD_some] at this
+    simp [optKey, this]
+
+theorem foundOK_lit {idx : Index} {sub : Sub} (inv : SubInv idx.hd idx.alive sub) (hd' : Nat → Head)
+    (hh : ∀ i, i ∈ sub.chain → hd' i = idx.hd i) (l1 l2 : List Nat)
+    (hl1 : ∀ i, i ∈ l1 ↔ i ∈ sub.chain ∧ idx.alive i = true) :
+    FoundOK sub.chain idx.alive (fun i => ckeys (argAt (hd' i) sub.arg))
+      (searchLit idx.store (l1 ++ l2)) := by
+  rintro ⟨i, hi, ha, hk⟩
+  simp only [hh i hi] at hk
+  have hex : ∃ l, argAt (idx.hd i) sub.arg = .const l := by
+    generalize argAt (idx.hd i) sub.arg = fa at hk
+    cases fa <;> simp [ckeys] at hk ⊢
+  obtain ⟨l, hl⟩ := hex
+  obtain ⟨i', hi', p, l', e, es⟩ := searchLit_app idx.store l1 l2
+    ⟨i, (hl1 i).2 ⟨hi, ha⟩, sub.arg, l, by rw [bind_optKey inv i hi, hl]⟩
+  have hi'' := (hl1 i').1 hi'
+  rw [bind_optKey inv i' hi''.1] at e
+  simp only [Option.some.injEq, Prod.mk.injEq] at e
+  refine ⟨l'.key, es, i', hi''.1, hi''.2, ?_⟩
+  simp only [hh i' hi''.1, e.2, ckeys]
+  split <;> simp
+
+theorem foundOK_struct {idx : Index} {sub : Sub} (inv : SubInv idx.hd idx.alive sub)
+    (hd' : Nat → Head) (hh : ∀ i, i ∈ sub.chain → hd' i = idx.hd i) (l1 l2 : List Nat)
+    (hl1 : ∀ i, i ∈ l1 ↔ i ∈ sub.chain ∧ idx.alive i = true) :
+    FoundOK sub.chain idx.alive (fun i => skeys (argAt (hd' i) sub.arg))
+      (searchStruct idx.store (l1 ++ l2)) := by
+  rintro ⟨i, hi, ha, hk⟩
+  simp only [hh i hi] at hk
+  have hex : ∃ n a, argAt (idx.hd i) sub.arg = .struct n a := by
+    generalize argAt (idx.hd i) sub.arg = fa at hk
+    cases fa <;> simp [skeys] at hk ⊢
+  obtain ⟨n, a, hl⟩ := hex
+  obtain ⟨i', hi', p, n', a', e, es⟩ := searchStruct_app idx.store l1 l2
+    ⟨i, (hl1 i).2 ⟨hi, ha⟩, sub.arg, n, a, by rw [bind_optKey inv i hi, hl]⟩
+  have hi'' := (hl1 i').1 hi'
+  rw [bind_optKey inv i' hi''.1] at e
+  simp only [Option.some.injEq, Prod.mk.injEq] at e
+  refine ⟨(n', a'), es, i', hi''.1, hi''.2, ?_⟩
+  simp [hh i' hi''.1, e.2, skeys]
+
+
+/-! ### adding a clause to the subsequence of an existing clause -/
+
+/-- the function `addBack`/`addFront` hand to `modifySegOf`. -/
+def mergeF (idx : Index) (h : Head) (m : Mode) (skel : List Nat) : Seg → Option Seg := fun seg =>
+  match seg, optKey h with
+  | .indexed sub, some (p, fa) =>
+    if sub.arg = p then
+      some (.indexed (sub.merge m (searchLit idx.store skel) (searchStruct idx.store skel) fa idx.next))
+    else none
+  | _, _ => none
+
+theorem addBack_eq (idx : Index) (h : Head) : addBack idx h =
+    match idx.live.getLast? with
+    | none => idx.add h [standalone idx.next h]
+    | some t =>
+      match modifySegOf t (mergeF idx h .append
+        (((((segOf t idx.segs).map Seg.chain).getD []).filter idx.alive).reverse ++ idx.dead))
+        idx.segs with
+      | some segs => idx.add h segs
+      | none => idx.add h (idx.segs ++ [standalone idx.next h]) := by
+  rfl
+
+theorem addFront_eq (idx : Index) (h : Head) : addFront idx h =
+    match idx.live.head? with
+    | none => idx.add h [standalone idx.next h]
+    | some t =>
+      match modifySegOf t (mergeF idx h .prepend (idx.live ++ idx.dead)) idx.segs with
+      | some segs => idx.add h segs
+      | none => idx.add h (standalone idx.next h :: idx.segs) := by
+  rfl
+
+theorem mergeF_some {idx : Index} {h : Head} {m : Mode} {skel : List Nat} {s s' : Seg}
+    (hf : mergeF idx h m skel s = some s') :
+    ∃ sub, s = .indexed sub ∧ firstInst h = some sub.arg ∧
+      s' = .indexed (sub.merge m (searchLit idx.store skel) (searchStruct idx.store skel)
+        (argAt h sub.arg) idx.next) := by
+  unfold mergeF at hf
+  split at hf
+  · rename_i sub p fa hk
+    split at hf
+    · rename_i hp
+      simp only [Option.some.injEq] at hf
+      unfold optKey at hk
+      cases hfi : firstInst h with
+      | none => simp [hfi] at hk
+      | some q =>
+        simp only [hfi, Option.some.injEq, Prod.mk.injEq] at hk
+        obtain ⟨rfl, rfl⟩ := hk
+        subst hp
+        exact ⟨sub, rfl, rfl, hf.symm⟩
+    · simp at hf
+  · simp at hf
+
+
+theorem nodup_extend (m : Mode) (a b c : List Nat) (x : Nat) (nd : (a ++ (b ++ c)).Nodup)
+    (hx : x ∉ a ++ (b ++ c)) : (a ++ (m.extend b x ++ c)).Nodup := by
+  simp only [List.mem_append, not_or] at hx
+  cases m
+  · simp only [Mode.extend]
+    simp only [List.nodup_append, List.mem_append, List.nodup_cons, List.mem_cons] at nd ⊢
+    grind
+  · simp only [Mode.extend]
+    simp only [List.nodup_append, List.mem_append, List.nodup_cons, List.mem_cons, List.cons_append] at nd ⊢
+    grind
+
+theorem order_split {idx : Index} {pre post : List Seg} {s : Seg}
+    (hsegs : idx.segs = pre ++ s :: post) :
+    idx.order = pre.flatMap Seg.chain ++ (s.chain ++ post.flatMap Seg.chain) := by
+  simp [Index.order, hsegs]
+
+theorem Inv.add_merge {idx : Index} (inv : Inv idx) (h : Head) (m : Mode) (pre : List Seg)
+    (sub : Sub) (post : List Seg) (fc : Option CKey) (fs : Option (String × Nat))
+    (hsegs : idx.segs = pre ++ Seg.indexed sub :: post)
+    (harg : firstInst h = some sub.arg)
+    (hC : FoundOK sub.chain idx.alive (fun i => ckeys (argAt (idx.hdAdd h i) sub.arg)) fc)
+    (hS : FoundOK sub.chain idx.alive (fun i => skeys (argAt (idx.hdAdd h i) sub.arg)) fs) :
+    Inv (idx.add h (pre ++ Seg.indexed (sub.merge m fc fs (argAt h sub.arg) idx.next) :: post)) := by
+  have hord := order_split hsegs
+  have hmemsub : Seg.indexed sub ∈ idx.segs := by simp [hsegs]
+  apply inv.add
+  · have nd := inv.nodup
+    have hn := inv.next_not_mem
+    rw [hord] at nd hn
+    simpa [Seg.chain, merge_chain] using nodup_extend m _ _ _ _ nd hn
+  · intro i hi
+    rw [hord]
+    simp only [List.flatMap_append, List.flatMap_cons, Seg.chain, merge_chain, List.mem_append,
+      Mode.mem_extend] at hi ⊢
+    grind
+  · intro s hs
+    simp only [List.mem_append, List.mem_cons] at hs
+    rcases hs with hs | hs | hs
+    · exact Or.inl (by simp [hsegs, hs])
+    · right
+      injection hs with hs
+      subst hs
+      apply SubInv.merge (inv.sub_hdAdd h sub hmemsub)
+      · rw [hdAdd_next]
+      · rw [hdAdd_next]; exact harg
+      · exact hC
+      · exact hS
+    · exact Or.inl (by simp [hsegs, hs])
+
+theorem live_add_merge (idx : Index) (h : Head) (m : Mode) (pre : List Seg)
+    (sub : Sub) (post : List Seg) (fc : Option CKey) (fs : Option (String × Nat)) (fa : FirstArg) :
+    (idx.add h (pre ++ Seg.indexed (sub.merge m fc fs fa idx.next) :: post)).live =
+      (pre.flatMap Seg.chain).filter idx.alive ++
+        ((m.extend sub.chain idx.next).filter idx.alive ++
+          (post.flatMap Seg.chain).filter idx.alive) := by
+  simp [live_add, Seg.chain, merge_chain]
+
+theorem live_split {idx : Index} {pre post : List Seg} {s : Seg}
+    (hsegs : idx.segs = pre ++ s :: post) :
+    idx.live = (pre.flatMap Seg.chain).filter idx.alive ++
+        (s.chain.filter idx.alive ++ (post.flatMap Seg.chain).filter idx.alive) := by
+  simp [Index.live, order_split hsegs]
+
+theorem last_in_mid {a b c : List Nat} {t : Nat} (nd : (a ++ (b ++ c)).Nodup)
+    (hl : (a ++ (b ++ c)).getLast? = some t) (ht : t ∈ b) : c = [] := by
+  cases c with
+  | nil => rfl
+  | cons x r =>
+    exfalso
+    have h1 : t ∈ x :: r := by
+      have : (a ++ (b ++ x :: r)).getLast? = (x :: r).getLast? := by
+        simp only [List.getLast?_append]
+        cases h : (x :: r).getLast? with
+        | none => simp at h
+        | some y => simp
+      rw [this] at hl
+      exact List.mem_of_getLast? hl
+    simp only [List.nodup_append] at nd
+    exact nd.2.1.2.2 t ht t h1 rfl
+
+theorem first_in_mid {a b c : List Nat} {t : Nat} (nd : (a ++ (b ++ c)).Nodup)
+    (hl : (a ++ (b ++ c)).head? = some t) (ht : t ∈ b) : a = [] := by
+  cases a with
+  | nil => rfl
+  | cons x r =>
+    exfalso
+    simp only [List.cons_append, List.head?_cons, Option.some.injEq] at hl
+    subst hl
+    simp only [List.cons_append, List.nodup_cons, List.mem_append, not_or] at nd
+    exact nd.1.2.1 ht
+
 end Scryer.Index
